@@ -645,9 +645,18 @@ fn boxed(ctx: &mut Ctx) {
     // contiguous, overlapping, empty or wrap around (a constructor that normalises, merges or cuts is not spec-exact)
     {
         const SYMS: [&str; 3] = ["a", "\0", "\u{e9}"];
+        let mut rel_texts: Vec<String> = vec![];
         for len in 0..=4usize {
             for code in 0..3usize.pow(len as u32) {
-                let text: String = (0..len).map(|i| SYMS[(code / 3usize.pow(i as u32)) % 3]).collect();
+                rel_texts.push((0..len).map(|i| SYMS[(code / 3usize.pow(i as u32)) % 3]).collect());
+            }
+        }
+        // texts as boot loaders pass them: a constructor that tidies them up (path, quotes, whitespace) is not spec-exact
+        for t in ["/boot/initrd.img root=/dev/ram0 quiet", "(hd0,1)/boot/kernel.elf --serial com1", "\"quoted module\" arg", "'single' arg", "console=ttyS0,115200n8 ", " root=/dev/sda1", "GRUB 2.06", "a  b", "/", "/ x", "x /y z", "key=\"v w\"", "C:\\EFI\\boot\\bootx64.efi arg", "tab\tseparated", "line1\nline2", "\"\"", "''", "  "] {
+            rel_texts.push(t.to_string());
+        }
+        {
+            for text in rel_texts {
                 let mut want_c = text.as_bytes().to_vec();
                 if want_c.last() != Some(&0) {
                     want_c.push(0);
